@@ -9,6 +9,7 @@ typedef struct mreq {
     int pool, consumed;
 } mreq;
 
+#define NKEYS 8
 typedef struct mu {
     int id, pool0, nslices, self_requests, use_suspend, with_cb;
     ABT_thread th;
@@ -30,6 +31,10 @@ static struct {
     volatile int units_done, go;
     long lost_checks, concurrent_reqs;
     long via_xstream, via_sched;
+    /* work-unit-local storage of the migrating units: the library keeps a unit's migration
+     * target and callback in the same per-unit table as the unit's own keys */
+    ABT_key keys[NKEYS];
+    long key_values_checked;
 } S;
 
 static int pool_index(ABT_pool p)
@@ -172,6 +177,9 @@ static void unit_fn(void *arg)
         ABT_OK(ABT_thread_yield());
     slice_check(u, 0);
     for (int s = 0; s < u->nslices; s++) {
+        /* (the first set of a key appends to the table while requests and callbacks of issuers on
+         * other streams may be creating the unit's migration record in it) */
+        ABT_OK(ABT_key_set(S.keys[s % NKEYS], (void *)(uintptr_t)(0x5000 + u->id * 16 + s % NKEYS)));
         if (u->self_requests && sim_rand_n(SIM_RS_CHAOS, 2)) {
             int p = (int)sim_rand_n(SIM_RS_CHAOS, (uint32_t)S.rt.npools);
             request(u, p, -1);
@@ -185,6 +193,12 @@ static void unit_fn(void *arg)
             ABT_OK(ABT_thread_yield());
         slice_check(u, y_inv);
         sim_progress();
+    }
+    for (int k = 0; k < NKEYS && k < u->nslices; k++) {
+        void *got = NULL;
+        ABT_OK(ABT_key_get(S.keys[k], &got));
+        SIM_CHECK(got == (void *)(uintptr_t)(0x5000 + u->id * 16 + k), "key:wrong-value", "unit %d: the value it stored under key %d reads %p at its end", u->id, k, got);
+        S.key_values_checked++;
     }
     u->done = 1;
     S.units_done++;
@@ -246,6 +260,8 @@ static void run_c13(void)
     sim_set_diag_cb(diag);
     wl_rt *rt = &S.rt;
     wl_rt_start(rt, WL_RT_NO_TOPO2);
+    for (int k = 0; k < NKEYS; k++)
+        ABT_OK(ABT_key_create(NULL, &S.keys[k]));
     int n = plan_range(1, sim_limit("units", 4));
     S.n = n;
     S.nissuers = plan_range(1, 2);
@@ -311,6 +327,9 @@ static void run_c13(void)
     sim_count("c13.requests_checked_must_be_honoured", (uint64_t)S.lost_checks);
     sim_count("c13.requests_overlapping_scheduling_point", (uint64_t)S.concurrent_reqs);
     sim_count("c13.requests_via_xstream_or_sched", (uint64_t)(S.via_xstream + S.via_sched));
+    sim_count("c13.key_values_of_migrating_units_checked", (uint64_t)S.key_values_checked);
+    for (int k = 0; k < NKEYS; k++)
+        ABT_OK(ABT_key_free(&S.keys[k]));
     wl_rt_stop(rt);
 }
 SIM_WORKLOAD("C13", "migrate-race", run_c13, 10)
